@@ -63,6 +63,23 @@ def errnos_for(ev):
     return []
 
 
+def where_of(ev):
+    """coarse location of the object a call names: lets the stratified sample reach each probe kind"""
+    p = ev.get("p")
+    if p is None:
+        p = ev.get("fdp")
+        pre = "fd:"
+    else:
+        pre = ""
+    if p is None:
+        return ""
+    if p.startswith("$ROOT/"):
+        p = p[6:]
+    top = p.split("/", 1)[0]
+    depth = min(p.count("/"), 2)
+    return "%s%s/%d" % (pre, "dst" if top in ("dst", "vol", "out") else "src", depth)
+
+
 IO_CALLS = ("copy_file_range", "read", "pread64", "write", "pwrite64", "sendfile")
 
 
@@ -101,7 +118,7 @@ class FCheck(SCheck):
                 continue
             if "errno" in self.kinds:
                 for e in errnos_for(ev):
-                    out.append({"faults": [{"site": s, "errno": e}], "_call": ev["c"], "_role": ev.get("role")})
+                    out.append({"faults": [{"site": s, "errno": e}], "_call": ev["c"], "_role": ev.get("role"), "_where": where_of(ev)})
             if "clamp" in self.kinds:
                 for k in clamps_for(ev):
                     out.append({"faults": [{"site": s, "clamp": k}], "_call": ev["c"], "_role": ev.get("role")})
@@ -115,7 +132,7 @@ class FCheck(SCheck):
         # stratified by (call, kind of fault): round-robin over strata, seeded order inside
         strata = {}
         for c in cands:
-            key = (c["_call"], "kill" if "kill_at" in c else ("clamp" if "clamp" in c["faults"][0] else c["faults"][0]["errno"]))
+            key = (c["_call"], c.get("_where", ""), "kill" if "kill_at" in c else ("clamp" if "clamp" in c["faults"][0] else c["faults"][0]["errno"]))
             strata.setdefault(key, []).append(c)
         for v in strata.values():
             r.shuffle(v)
